@@ -17,7 +17,7 @@ theorem facts02_rt : facts02.GoodRT := ⟨by decide, by decide, by decide, by de
 theorem facts02_mp : facts02.mpNameAnyKey = true := by decide
 
 /-- soft-validating configuration of protocol `p` -/
-def softCfg (p : Proto) (iw : Bool) : Cfg := ⟨p, .soft, iw, .dict, false⟩
+def softCfg (p : Proto) (iw : Bool) : Cfg := ⟨p, .soft, iw, .dict, false, false, true⟩
 
 /-- (⇐) Every request whose arguments satisfy the declared constraints is accepted under soft validation — the user
     function runs, with exactly those arguments — in every protocol of the family and both wrapper modes. -/
@@ -51,7 +51,7 @@ theorem facts02_body : facts02.missingBodyFault = true := by decide
 
 theorem facts02_good : facts02.Good :=
   ⟨by decide, by decide, by decide, by decide, by decide, by decide, by decide, by decide, by decide, by decide,
-   by decide, by decide, by decide⟩
+   by decide, by decide, by decide, by decide, by decide⟩
 
 /-- `validate_string` is applied to Unicode text that arrives as bytes as well -/
 theorem facts02_bint : facts02.binTextValidated = true := by decide
